@@ -10,8 +10,15 @@
 //! trusted: R15 (deep slice): ChannelManager::from_channel_manager_data (~1700 lines): the unit extracts the staleness test that decides between resuming a channel and force-closing it from the monitor's state verbatim as a function of the four channel counters and the four monitor counters (accessors are external_body field reads); the force-close itself and everything else of the function are dropped and not claimed
 //! trusted: R6: `for (htlc, counterparty_sig) in A.iter().zip(B.iter())` becomes an index loop over min(A.len(), B.len()) (std semantics of Iterator::zip) with the two bindings taken by index
 //! trusted: env: Secp256k1::verify_ecdsa is external_body whose result is Ok exactly when the uninterpreted predicate sig_valid(msg, sig, key) holds (any signature scheme); the sighash of the commitment transaction and the sighash of each second-stage HTLC transaction are opaque values (commitment_sighash / htlc_sighash_of(htlc), uninterpreted functions of the built transaction / the HTLC); PublicKey, Signature, Message opaque; CommitmentSigned skeleton {signature, htlc_signatures}; CommitmentTransaction skeleton with external_body nondust_htlcs() returning the stored list
+//! trusted: assume_specification for core::cmp::max / core::cmp::min (std definitions): present in every unit so that a change that introduces them is verified instead of being rejected by the tool
 use vstd::prelude::*;
 verus! {
+use vstd::std_specs::cmp::*;
+use core::cmp;
+pub assume_specification<T: core::cmp::Ord>[core::cmp::max::<T>](a: T, b: T) -> (r: T)
+    ensures T::obeys_cmp_spec() ==> r == (if b.cmp_spec(&a) == core::cmp::Ordering::Less { a } else { b });
+pub assume_specification<T: core::cmp::Ord>[core::cmp::min::<T>](a: T, b: T) -> (r: T)
+    ensures T::obeys_cmp_spec() ==> r == (if b.cmp_spec(&a) == core::cmp::Ordering::Less { b } else { a });
 #[derive(Clone, Copy)] pub struct PublicKey(pub [u8; 33]);
 #[derive(Clone, Copy)] pub struct Signature(pub [u8; 64]);
 #[derive(Clone, Copy)] pub struct Message(pub [u8; 32]);
